@@ -295,8 +295,8 @@ def ampl_epoch(c, i, j):
     else:
         y, p, n = c.y1, i - c.ni0, c.ni1
     if p == n and n >= 2:
-        return year_start(y) + year_len(y) - (AMPL - j) * c.tfsec
-    return year_start(y) + ((p - 1) * (AMPL + 2) + j) * c.tfsec
+        return year_start(y) + year_len(y) - (c.ampl - j) * c.tfsec
+    return year_start(y) + ((p - 1) * (c.ampl + 2) + j) * c.tfsec
 
 
 def amplified_cases(rng, cases, all_behs, quick, ni0, ni1, no):
@@ -324,15 +324,22 @@ def amplified_cases(rng, cases, all_behs, quick, ni0, ni1, no):
     n = 6 if quick else 40
     pick = good[:n - n // 3] + ok[:n // 3]
     meta = {}
+    big_done = False
     for k, (tfname, tfsec, beh) in enumerate(pick):
         schema = SCHEMAS[k % len(SCHEMAS)]
         c = Concretisation(rng, tfname, tfsec, ni0, ni1, no, schema, "fixed")
+        c.ampl = AMPL
+        if tfsec <= 60 and not big_done:
+            # one history with runs longer than a block of the buffered file (32 KiB): a run of one model row crosses a block boundary
+            reclen = 8 + sum(int(t[1:]) for _, t in schema)
+            c.ampl = 40000 // reclen + 1
+            big_done = True
         key = "AMP%d/%s/G" % (k, tfname)
         ops = []
         for st in beh:
             ep, cols = [], [[] for _ in schema]
             for r in st["rows"]:
-                for j in range(AMPL):
+                for j in range(c.ampl):
                     ep.append(ampl_epoch(c, r["i"], j))
                     for q, v in enumerate(c.vals(r["v"])):
                         cols[q].append(v)
@@ -349,8 +356,7 @@ def check_amplified(res, obs, cases, meta):
     n = 0
     for cid, (beh, c, key) in meta.items():
         o = obs.get(cid)
-        replay = {"check": "store.amplified", "concretisation": c.describe(), "key": key, "behaviour": beh, "amplification": AMPL,
-                  "ops": [x for x in cases if json.dumps(x["id"]) == cid][0]["ops"], "seed": vlib.seed()}
+        replay = {"check": "store.amplified", "concretisation": c.describe(), "key": key, "behaviour": beh, "amplification": c.ampl, "seed": vlib.seed()}
         if o is None:
             raise Undecided("no observation for case %s" % cid)
         if isinstance(o, dict) and "died" in o:
@@ -361,10 +367,10 @@ def check_amplified(res, obs, cases, meta):
             if w.get("driver_error"):
                 raise Undecided("driver error: %s" % w)
             if w.get("panic") or w.get("err"):
-                res.violation("successful-by-contract write of %d rows failed on %s step %d: %s" % (len(st["rows"]) * AMPL, key, k, str(w)[:300]), replay)
+                res.violation("successful-by-contract write of %d rows failed on %s step %d: %s" % (len(st["rows"]) * c.ampl, key, k, str(w)[:300]), replay)
                 break
             real = result_rows(q, key, c.schema, "fixed")
-            want = [(ampl_epoch(c, r["i"], j), c.vals(r["v"])) for r in st["expect"] for j in range(AMPL)]
+            want = [(ampl_epoch(c, r["i"], j), c.vals(r["v"])) for r in st["expect"] for j in range(c.ampl)]
             bad = None
             if isinstance(real, str):
                 bad = real
@@ -377,14 +383,15 @@ def check_amplified(res, obs, cases, meta):
                         break
             if bad:
                 res.violation("query after step %d of an amplified history on %s (%s, one request = %d rows, %d per model row): %s; model rows of the step %s, model prediction %s" % (
-                    k, key, c.tf, len(st["rows"]) * AMPL, AMPL, bad, st["rows"], st["expect"]), replay)
+                    k, key, c.tf, len(st["rows"]) * c.ampl, c.ampl, bad, st["rows"], st["expect"]), replay)
                 break
         else:
             n += 1
             res.cov["traces_validated_against_impl"] += 1
     if meta:
         res.cov["amplified_behaviours_replayed"] = n
-        res.cov["amplification"] = "%d real intervals per model interval: requests of %d-%d rows (the flush switches to a buffered file at 100 commands per year file)" % (AMPL, AMPL, 3 * AMPL)
+        res.cov["amplification"] = "%d real intervals per model interval: requests of %d-%d rows (the flush switches to a buffered file at 100 commands per year file); one history with %s intervals per model interval (a run longer than the buffered file's 32 KiB block)" % (
+            AMPL, AMPL, 3 * AMPL, sorted({c.ampl for _, c, _ in meta.values() if c.ampl != AMPL}))
 
 
 def run(prop, tier):
